@@ -16,6 +16,7 @@ RULE = (
     "every binary image of the declared grid shapes x every periodicity mask (Cartesian) / both periodic_z settings (cylindrical); "
     "reference labelling by an independent union-find carrying integer period offsets; non-trivial = image has at least one "
     "component; distinctness by (grid spec, image bits)"
+    " plus all bodies of revolution over a width alphabet on 8x6 / 8x8 cylindrical grids, UnitGrid objects, bool / int8 / float32 storage of the binary image at the public entry point, and alternating-periodicity histories (every 3x3 and 2x2x2 image under two masks alternately, fresh fork per chunk)"
 )
 ASSUMPTIONS = [
     "exhaustive only up to the declared shapes (<= 20 cells); larger images are a fixed structured catalogue, not exhaustive",
